@@ -44,7 +44,7 @@ fn stub_descriptor_new(_definition: &str, fwd: InnerOp, inv: Option<InnerOp>) ->
     mk_descriptor(fwd, inv.unwrap_or_default(), invertible, false)
 }
 
-// @harness c07_new_t_obs_folding prop=C07 tier=thorough cap=3600 btree_cap=20 stubs="M-BTREE(CAP 20), S-PPNEW(ParsedParameters::new -> typed set for harness numbers), OpDescriptor::new (no tokenisation), Uuid::new_v4 = nil" bound="x, dx, s (ppm), ds, t_epoch, t_obs in D-TINY (y=2, dy=1, z=dz=0 concrete), no rotation: stored T == T + (t_obs - t_epoch)*DT and stored S == 1 + s*1e-6 + (t_obs - t_epoch)*ds*1e-6; fixed_time flag set"
+// @harness c07_new_t_obs_folding prop=C07 tier=thorough cap=3600 may_timeout=yes btree_cap=20 stubs="M-BTREE(CAP 20), S-PPNEW(ParsedParameters::new -> typed set for harness numbers), OpDescriptor::new (no tokenisation), Uuid::new_v4 = nil" bound="x, dx, s (ppm), ds, t_epoch, t_obs in D-TINY (y=2, dy=1, z=dz=0 concrete), no rotation: stored T == T + (t_obs - t_epoch)*DT and stored S == 1 + s*1e-6 + (t_obs - t_epoch)*ds*1e-6; fixed_time flag set"
 #[kani::proof]
 #[kani::stub(ParsedParameters::new, stub_pp_new)]
 #[kani::stub(OpDescriptor::new, stub_descriptor_new)]
